@@ -144,6 +144,9 @@ type placement struct {
 func Plan(list []Entry, packager string, umask os.FileMode, pkgMTime time.Time, disableGlob bool, t *fixture.Tree) PlanResult {
 	var places []placement
 	add := func(p PEntry, from int) { places = append(places, placement{e: p, explicit: true, from: from}) }
+	// rootNonDir: an entry that is not a directory has the root itself as destination. Alone that has no documented
+	// meaning; together with any other entry, that entry lies beneath a non-directory
+	rootNonDir := ""
 
 	owner := func(e Entry) (string, string) {
 		o, g := e.Owner, e.Group
@@ -188,13 +191,15 @@ func Plan(list []Entry, packager string, umask os.FileMode, pkgMTime time.Time, 
 			add(PEntry{Dst: asDir(NormPath(e.Dst)), Kind: "dir", Owner: o, Group: g, Mode: mode, ModeFrom: from, MTime: firstTime(e.MTime, pkgMTime)}, idx)
 		case "symlink":
 			if NormPath(e.Dst) == "/" {
-				return PlanResult{Unclear: "non-directory at /"}
+				rootNonDir = "symlink"
+				continue
 			}
 			o, g := owner(e)
 			add(PEntry{Dst: NormPath(e.Dst), Kind: "symlink", Src: e.Src, Owner: o, Group: g, MTime: firstTime(e.MTime, pkgMTime)}, idx)
 		case "ghost", "doc", "licence", "license", "readme", "debian changelog":
 			if NormPath(e.Dst) == "/" {
-				return PlanResult{Unclear: "non-directory at /"}
+				rootNonDir = e.Type
+				continue
 			}
 			o, g := owner(e)
 			pe := PEntry{Dst: NormPath(e.Dst), Kind: e.Type, Owner: o, Group: g, Mode: e.Mode, MTime: firstTime(e.MTime, pkgMTime)}
@@ -303,7 +308,8 @@ func Plan(list []Entry, packager string, umask os.FileMode, pkgMTime time.Time, 
 					dst = NormPath(e.Dst + "/" + rel)
 				}
 				if dst == "/" {
-					return PlanResult{Unclear: "non-directory at /"}
+					rootNonDir = "file"
+					continue
 				}
 				fileFrom(e, n, dst, idx)
 			}
@@ -312,6 +318,12 @@ func Plan(list []Entry, packager string, umask os.FileMode, pkgMTime time.Time, 
 		}
 	}
 
+	if rootNonDir != "" {
+		if len(places) == 0 {
+			return PlanResult{Unclear: "non-directory at /"}
+		}
+		return PlanResult{Collision: true, Why: "the other entries lie beneath the " + rootNonDir + " at /", WhyClass: "beneath-root:" + rootNonDir}
+	}
 	// collisions: two configured placements on one path
 	byPath := map[string][]placement{}
 	key := func(d string) string {
